@@ -494,6 +494,62 @@ def rule_B7(ctx: Ctx) -> None:
               "the depth guard `current_tree_depth <= max_tree_depth / 2` can never bind under the default max_tree_depth = 2 * n_total_cells")
 
 
+def rule_B8(ctx: Ctx) -> None:
+    f = ctx.index.func(f"{GEN}._random_start_coord")
+    gs, sc = f.params()[:2]
+    draws = [c for c in X.calls(f.node) if dotted_of(c.func) in ("np.random.randint", "numpy.random.randint")]
+    exp = "a random start cell is drawn with 0 <= coordinate < grid_shape on every axis (np.random.randint(0, high, size=len(grid_shape)) with high <= grid_shape elementwise)"
+    if len(draws) != 1:
+        ctx.unknown(f, {"randint_calls": len(draws)}, exp)
+    else:
+        c = draws[0]
+        lo = N.arg_or_kw(c, 0, "low")
+        hi = N.arg_or_kw(c, 1, "high")
+        size = N.kwarg(c, "size")
+        ok_hi = hi is not None and (X.same_expr(hi, f"np.maximum({gs} - 1, 1)") or X.same_expr(hi, gs))
+        ctx.judge(f, N.const_int(lo) == 0 and ok_hi and size is not None and X.same_expr(size, f"len({gs})"),
+                  {"draw": X.U(c)}, exp, "the start cell can lie outside the grid (or have the wrong dimension)")
+    g = [n for n in f.node.body if isinstance(n, ast.If)]
+    ok = len(g) == 1 and X.same_expr(g[0].test, f"{sc} is None") and any(isinstance(x, ast.Assign) and X.same_expr(x.value, f"np.array({sc})") for x in g[0].orelse)
+    ctx.judge(f, ok, {"guard": X.U(g[0].test) if g else None}, "a given start cell is used as it is (converted to an array); only None is replaced by a random draw")
+
+
+def _forwarded(call: ast.Call) -> dict:
+    return {k.arg: X.U(k.value) for k in call.keywords if k.arg}
+
+
+def rule_B9(ctx: Ctx) -> None:
+    # gen_prim delegates to gen_dfs with every parameter forwarded by name and randomized_stack=True
+    f = _gen(ctx, "gen_prim")
+    calls = [c for c in X.calls(f.node) if X.U(c.func).endswith("gen_dfs")]
+    exp = "the delegating generator forwards each of its parameters to gen_dfs under the same name"
+    if len(calls) != 1:
+        ctx.unknown(f, {"gen_dfs_calls": len(calls)}, exp)
+    else:
+        fw = _forwarded(calls[0])
+        want = {p: p for p in f.params()}
+        want["randomized_stack"] = "True"
+        rets = X.returns_of(f.node)
+        ctx.judge(f, fw == want and not calls[0].args and len(rets) == 1 and rets[0].value is calls[0], {"forwarded": fw}, exp,
+                  "an argument is dropped or crossed: the prim alias ignores a constraint / returns another maze")
+    f = _gen(ctx, "gen_dfs_percolation")
+    calls = [c for c in X.calls(f.node) if X.U(c.func).endswith("gen_dfs")]
+    if len(calls) != 1:
+        ctx.unknown(f, {"gen_dfs_calls": len(calls)}, exp)
+    else:
+        fw = _forwarded(calls[0])
+        want = {p: p for p in f.params() if p != "p"}
+        ctx.judge(f, fw == want and not calls[0].args, {"forwarded": fw}, exp + " (all but the percolation probability)",
+                  "an argument is dropped or crossed: the DFS stage ignores a constraint or starts elsewhere than recorded")
+        # percolation only ADDS edges to the DFS maze
+        st = [x for x in ast.walk(f.node) if isinstance(x, ast.Assign) and isinstance(x.targets[0], ast.Subscript) and "connection_list" in X.U(x.targets[0])]
+        ok = len(st) == 1 and isinstance(st[0].value, ast.Call) and dotted_of(st[0].value.func) in ("np.logical_or", "numpy.logical_or") \
+            and "maze.connection_list" in [X.U(a) for a in st[0].value.args] and len(st[0].value.args) == 2
+        ctx.judge(f, ok, {"combine": X.U(st[0].value) if st else None},
+                  "the percolated maze is the union (logical_or) of the DFS maze and the random edges: every DFS connection survives",
+                  "DFS connections are removed by the combination: the maze is no longer connected although the DFS metadata says so")
+
+
 RULES = [
     Rule("C01.B1", rule_B1, floor=6, doc="boundary sanitisation (taint)"),
     Rule("C01.B2", rule_B2, floor=8, doc="lesser-endpoint idiom on in-bounds neighbours"),
@@ -502,4 +558,6 @@ RULES = [
     Rule("C01.B5", rule_B5, floor=4, doc="percolation threshold form"),
     Rule("C01.B6", rule_B6, floor=11, doc="registry"),
     Rule("C01.B7", rule_B7, floor=7, doc="default completeness of DFS"),
+    Rule("C01.B8", rule_B8, floor=2, doc="start cell inside the grid"),
+    Rule("C01.B9", rule_B9, floor=3, doc="delegating generators forward their arguments; percolation only adds edges"),
 ]
